@@ -2,7 +2,7 @@
 """Regenerate the self-test variants that come from independent reviewers: every seeded change becomes a
 mutant 'seed-<id>' in the mutants file of the property it was written against (expect_rule = a rule of that
 property's check that reports it, per seeded/<id>/caught.json), every harmless refactor becomes a control
-'refactor-<id>' in the file of the property it was written for. Existing 'seed-*' / 'refactor-*' entries are replaced."""
+'refactor-<id>' in the file of the property it was written for. Existing 'seed-<own id>' / 'refactor-<own id>' entries are replaced; entries for another property's id are kept."""
 import json, glob, os, sys
 sys.path.insert(0, os.path.dirname(os.path.abspath(__file__)))
 from patch_to_variant import variant
@@ -33,7 +33,9 @@ for d in sorted(glob.glob(V+"/refactors/*/")):
     add(prop,v)
 for prop,vs in sorted(by.items()):
     p=f"{V}/mutants/{prop}.json"; d=json.load(open(p))
-    d["mutants"]=[m for m in d["mutants"] if not (m["name"].startswith("seed-") or m["name"].startswith("refactor-"))]+vs
+    names={v["name"] for v in vs}
+    # replace this property's own reviewer variants; keep cross-property ones a rule author added by hand
+    d["mutants"]=[m for m in d["mutants"] if not (m["name"] in names or ((m["name"].startswith("seed-"+prop+"-") or m["name"].startswith("refactor-"+prop+"-")) and m["name"].count("-")==2))]+vs
     json.dump(d,open(p,"w"),indent=1)
     print(prop,len(vs),"variants from reviewers")
 for s in skipped: print("skipped",*s)
